@@ -45,7 +45,8 @@ With(f, n) == [toks |-> f.toks, T |-> f.T \cup n.T, TQ |-> f.TQ \cup n.TQ, C |->
 
 LeafKinds == {"from", "alias", "as-alias", "schema", "two-tables", "join-two", "join-two-schema", "join-inner", "join-left", "join-right", "join-full", "join-cross",
               "where-fn", "group-having-order", "insert-values", "update", "delete", "merge", "case", "between-in-cast", "window",
-              "string-keyword", "count-star", "shared", "slot-q", "slot-d"}
+              "string-keyword", "count-star", "shared", "slot-q", "slot-d",
+              "same-name-two-schemas", "bare-and-qualified", "same-name-nested-schemas"}
 NestKinds == {"in-subquery", "exists", "scalar-subquery", "derived", "join-derived", "cte", "insert-select", "update-subquery",
               "delete-subquery", "union", "not-in-subquery", "values-subquery", "returning-subquery", "upsert-subquery",
               "update-set-subquery", "having-subquery", "join-on-subquery", "case-subquery", "function-arg-subquery",
@@ -172,6 +173,16 @@ Leaf(k, L, sl) ==
           T |-> {IF k = "join-two" THEN ta ELSE "sch." \o ta, tb, tc},
           TQ |-> {IF k = "join-two" THEN Plain(ta) ELSE <<"sch", ta>>, Plain(tb), Plain(tc)},
           C |-> {ca, cb, cc, cd}, CQ |-> {<<xa, ca>>, <<xa, cb>>, <<xb, cc>>, <<tc, cd>>}, F |-> {}, A |-> {xa, xb}]
+    \* the same table name under two qualifications: both are referenced, both must be reported
+    [] k = "same-name-two-schemas" ->
+         [toks |-> <<"SELECT", xa, ".", ca, "FROM", "sch", ".", ta, xa, "JOIN", "other", ".", ta, xb, "ON", xa, ".", cb, "=", xb, ".", cb>>,
+          T |-> {"sch." \o ta, "other." \o ta}, TQ |-> {<<"sch", ta>>, <<"other", ta>>}, C |-> {ca, cb}, CQ |-> {<<xa, ca>>, <<xa, cb>>, <<xb, cb>>}, F |-> {}, A |-> {xa, xb}]
+    [] k = "bare-and-qualified" ->
+         [toks |-> <<"SELECT", ca, "FROM", ta, ",", "sch", ".", ta, xb>>,
+          T |-> {ta, "sch." \o ta}, TQ |-> {Plain(ta), <<"sch", ta>>}, C |-> {ca}, CQ |-> {Plain(ca)}, F |-> {}, A |-> {xb}]
+    [] k = "same-name-nested-schemas" ->
+         [toks |-> <<"SELECT", ca, "FROM", "sch", ".", ta, "WHERE", cb, "IN", "(", "SELECT", cc, "FROM", "other", ".", ta, ")">>,
+          T |-> {"sch." \o ta, "other." \o ta}, TQ |-> {<<"sch", ta>>, <<"other", ta>>}, C |-> {ca, cb, cc}, CQ |-> {Plain(ca), Plain(cb), Plain(cc)}, F |-> {}, A |-> {}]
     [] k = "join-cross" ->
          [toks |-> <<"SELECT", ca, "FROM", ta, "CROSS", "JOIN", tb>>, T |-> {ta, tb}, TQ |-> {Plain(ta), Plain(tb)}, C |-> {ca}, CQ |-> {Plain(ca)}, F |-> {}, A |-> {}]
     [] k = "where-fn" ->
